@@ -21,6 +21,14 @@ HAND = [
     "template T(n) { signal input in; signal output out; var a[2]; a[0] = in * in * in; a[1] = in; out <-- a[0]; }",
     "template T(n) { signal input in; signal output out; signal s; if (n) { s <-- (1 + 1) * (1 + 1) - 3; } else { s <-- 2; } if (s == 2) { out <== in; } else { out <== 0; } }",
     "template T(n) { signal input in; signal output out; signal s; if (n) { s <-- 2; } else { s <-- (1 + 1) * (1 + 1) - 3; } if (s == 2) { out <== in; } else { out <== 0; } }",
+    # what the pre-pass of bc8ef3c must not seed (seeded changes C20 m4/m5, C17 m8): a loop-carried local that is read before it is assigned an
+    # element of a parameter table selected by a signal, or a local that aliases a signal — a wrong seed is overwritten later, so the false claim
+    # exists at intermediate budgets only
+    "template T(table, n) { signal input in; signal output out[n]; var t = 1; for (var i = 0; i < n; i++) { out[i] <-- t * in; t = table[i][in]; } }",
+    "template T(table, n) { signal input in; signal output out[n]; var t = 1; for (var i = 0; i < n; i++) { out[i] <-- t * in; t = table[in][i]; } }",
+    "template T(n) { signal input in; signal output out[2]; var v = in; var c = 1; for (var i = 0; i < 2; i++) { out[i] <-- c * in; c = v * v; } }",
+    "template T(n) { signal input in; signal output out; var step = in; var acc = 0; for (var i = 0; i < n; i++) { acc = acc + step; } out <-- acc * in; }",
+    "template T(n) { signal input in; signal output out[2]; var a = in; var b = 1; var c = 1; var d = 1; for (var i = 0; i < 2; i++) { out[i] <-- d * in; d = c * c; c = b * b; b = a + 1; } }",
 ]
 
 
